@@ -20,3 +20,5 @@ pub mod h_ser;
 pub mod h_vm;
 pub mod h_print;
 pub mod h_compile;
+pub mod h_heap;
+pub mod h_parse;
